@@ -52,6 +52,8 @@ type Runner struct {
 	lastSlash []slashEv
 	qLines    []string // sampled query arguments of the current query step (queries.go)
 	qGroup    []string // observation group `query` of the current query step
+	wantDigest bool     // C20: record a state digest after every step
+	digests    []string
 }
 
 var groupsOrder = []string{"bank", "oblig", "bind", "index", "ctx", "queue", "req", "vol", "cb", "slash"}
@@ -254,8 +256,14 @@ func (r *Runner) apply(o *Op) string {
 	fmt.Fprintf(r.out, "O %d %s\n", r.step, o.line())
 	fmt.Fprintf(r.out, "R %d %s\n", r.step, res)
 	r.observe(r.step)
+	if o.Kind == "export" {
+		r.exportStep() // monitor C19 + group gen, on cache branches
+	}
 	r.mon.after(o, res, pre)
 	r.results = append(r.results, res)
+	if r.wantDigest {
+		r.digests = append(r.digests, r.digest(res))
+	}
 	r.hist.Ops = append(r.hist.Ops, *o)
 	r.step++
 	return res
